@@ -57,6 +57,11 @@ class Sym:
         return "Sym(%s)" % show(self.term)
 
 
+class MList(list):
+    """an nn.ModuleList: a list with an identity (who built it matters: a container handed in by the caller and
+    stored as it is stays the caller's to change)"""
+
+
 class Stage:
     """a sub-transform T_i"""
 
@@ -849,7 +854,36 @@ class PEval:
         if fn_text in ("super().__init__",):
             return None
         if fn_text in ("nn.ModuleList", "torch.nn.ModuleList"):
-            return list(self.iterate(self.ev(e.args[0], env))) if e.args else []
+            return MList(self.iterate(self.ev(e.args[0], env))) if e.args else MList()
+        if fn_text == "isinstance" and len(e.args) == 2 and not e.keywords:
+            v = self.ev(e.args[0], env)
+            alts = e.args[1].elts if isinstance(e.args[1], ast.Tuple) else [e.args[1]]
+            out = False
+            for a in alts:
+                t = norm_text(a)
+                if t in ("nn.ModuleList", "torch.nn.ModuleList"):
+                    out = out or isinstance(v, MList)
+                elif t == "list":
+                    out = out or isinstance(v, list)
+                elif t == "tuple":
+                    out = out or isinstance(v, tuple)
+                elif t in ("nn.Module", "torch.nn.Module"):
+                    if isinstance(v, (MList, Stage, Obj)):
+                        out = True
+                    elif not (v is None or isinstance(v, (int, float, str, list, tuple, Sym))):
+                        raise Undecided("isinstance(%r, %s)" % (v, t))
+                elif t == "Transform":
+                    if isinstance(v, Stage):
+                        out = True
+                    elif not (v is None or isinstance(v, (int, float, str, list, tuple, Sym))):
+                        raise Undecided("isinstance(%r, %s)" % (v, t))
+                elif t in ("int", "float", "str", "bool"):
+                    if isinstance(v, (Sym, Shape)):
+                        raise Undecided("isinstance(%r, %s)" % (v, t))
+                    out = out or isinstance(v, {"int": int, "float": float, "str": str, "bool": bool}[t])
+                else:
+                    raise Undecided("isinstance(.., %s)" % t)
+            return out
         if fn_text in ("check.is_positive_int", "typechecks.is_positive_int", "is_positive_int", "check.is_nonnegative_int", "typechecks.is_nonnegative_int", "check.is_int", "check.is_bool") and len(e.args) == 1:
             # the predicates of nflows.utils.typechecks (their bodies are C20 UT-PRED's obligation)
             a = self.ev(e.args[0], env)
